@@ -102,7 +102,7 @@ theorem Core.AbsEq.strDisabled_eq {c c' : Core} (h : Core.AbsEq c c') : c.strDis
 
 /-- one candidate at the same absolute position has the same effect on both states -/
 theorem addCands_abs (P : Params) (cb : Nat → CbRet) (fast : Bool) (b b' : Block) (ks ks' : List Cand) (c c' : Core) (w : World)
-    (h : Core.AbsEq c c') (hk : absCands b ks = absCands b' ks') :
+    (hnc : ∀ s, P.chain s = none) (h : Core.AbsEq c c') (hk : absCands b ks = absCands b' ks') :
     Core.AbsEq (addCands P cb fast b ks c w).1 (addCands P cb fast b' ks' c' w).1 ∧
     (addCands P cb fast b ks c w).2 = (addCands P cb fast b' ks' c' w).2 := by
   induction ks generalizing ks' c c' w with
@@ -121,7 +121,7 @@ theorem addCands_abs (P : Params) (cb : Nat → CbRet) (fast : Bool) (b b' : Blo
       have hlen := h.len_eq k.str
       have hemp := h.isEmpty_eq k.str
       have hmem : (k.str ∈ c'.strDisabled) = (k.str ∈ c.strDisabled) := by rw [hd]
-      simp only [addCands, ← hs, hmem, ← hlen, ← hemp]
+      simp only [addCands, ← hs, hmem, ← hlen, ← hemp, hnc]
       split
       · exact ih ks' c c' w h hrest'
       · split
@@ -179,15 +179,17 @@ theorem addCands_append (P : Params) (cb : Nat → CbRet) (fast : Bool) (b : Blo
     · split
       · exact ih c w
       · split
-        · cases hcb : (call cb w).1 with
-          | cont =>
-            simp only []
-            rw [ih]
-            rcases addCands P cb fast b ks _ (call cb w).2 with ⟨c1, w1, ms1, e⟩
-            cases e <;> simp
-          | abort => simp
-          | error => simp
         · exact ih _ w
+        · split
+          · cases hcb : (call cb w).1 with
+            | cont =>
+              simp only []
+              rw [ih]
+              rcases addCands P cb fast b ks _ (call cb w).2 with ⟨c1, w1, ms1, e⟩
+              cases e <;> simp
+            | abort => simp
+            | error => simp
+          · exact ih _ w
 
 /-- **Partition invariance of the collected matches.** Scanning the blocks of a partition one after the other collects,
     in absolute terms, exactly what scanning one block collects whose candidates are the concatenation of the blocks'
@@ -195,6 +197,7 @@ theorem addCands_append (P : Params) (cb : Nat → CbRet) (fast : Bool) (b : Blo
     position is split into base + offset. -/
 theorem collect_partition (P : Params) (cb : Nat → CbRet) (fast : Bool) (parts : List (Block × List Cand))
     (whole : Block) (ksW : List Cand) (c c' : Core) (w : World)
+    (hnc : ∀ s, P.chain s = none)
     (h : Core.AbsEq c c') (hk : absCands whole ksW = parts.flatMap fun p => absCands p.1 p.2) :
     Core.AbsEq (collect P cb fast parts c w).1 (addCands P cb fast whole ksW c' w).1 ∧
     (collect P cb fast parts c w).2 = (addCands P cb fast whole ksW c' w).2 := by
@@ -207,7 +210,7 @@ theorem collect_partition (P : Params) (cb : Nat → CbRet) (fast : Bool) (parts
     obtain ⟨b, ks⟩ := p
     simp only [List.flatMap_cons, absCands] at hk
     obtain ⟨k1, k2, rfl, h1, h2⟩ := List.map_eq_append_iff.mp hk
-    have ha := addCands_abs P cb fast b whole ks k1 c c' w h (by simpa [absCands] using h1.symm)
+    have ha := addCands_abs P cb fast b whole ks k1 c c' w hnc h (by simpa [absCands] using h1.symm)
     rw [addCands_append]
     simp only [collect]
     rcases hA : addCands P cb fast b ks c w with ⟨cA, wA, msA, eA⟩
